@@ -14,7 +14,7 @@ from checks import common as cm
 from checks import phys, c01
 
 ID = 'C18'
-BUDGET = {'quick': 700, 'thorough': 40000}
+BUDGET = {'quick': 500, 'thorough': 40000}
 WALL = {'quick': 170, 'thorough': 3000}
 CHUNK = 4
 CASE_TIMEOUT = 900
@@ -471,11 +471,17 @@ def run_driver(case, tape):
 
         def oracle():
             tol = 0.0 if case['g1'] == case['g2'] else 1e-11
+            lost_phi = []
             for name in ('grid', 'phi'):
                 a, b = info['final'][name]
                 if a is None:
                     raise OracleFail('final-checkpoint-missing', dict(run='unsplit', name=name, t=tEnd,
                                                                       times=info['times_unsplit']))
+                if b is None and name == 'phi' and info.get('leg1_status') == 'aborted':
+                    # a fail-stop between the grid and the phi file of the same step loses a
+                    # derived output, not state: the property speaks of the restarted state
+                    lost_phi.append(1)
+                    continue
                 if b is None:
                     raise OracleFail('final-checkpoint-missing', dict(run='split', name=name, t=tEnd,
                                                                       times=info['times_split'],
@@ -497,6 +503,8 @@ def run_driver(case, tape):
                 probes['restart_on_different_grid'] = 1
             if info.get('leg1_status') == 'aborted':
                 probes['leg1_aborted'] = 1
+            if lost_phi:
+                probes['phi_file_lost_to_abort_between_files'] = 1
             if case['stop'] == 'budget' and t1 and max(t1) < tEnd:
                 probes['budget_stopped_early'] = 1
             return dict(nontrivial=(max(P1, P2) > 1 or resumed), probes=probes)
